@@ -367,6 +367,9 @@ fn cmd_run(args: &[String]) -> i32 {
     let outdir = arg(args, "--out").unwrap_or("/verif/evidence/tmp").to_string();
     let corpus = arg(args, "--corpus").map(|s| s.to_string());
     let extended = args.iter().any(|a| a == "--extended");
+    if let Some(d) = arg(args, "--dict") {
+        util::load_dict(d);
+    }
     let _ = std::fs::create_dir_all(&outdir);
     let nw: usize = arg(args, "--workers").and_then(|s| s.parse().ok()).unwrap_or(16);
     let t0 = Instant::now();
